@@ -516,6 +516,23 @@ func runC04(r *hx.Run, replay string) {
 	}
 }
 
+// lfInFrag12 mirrors the model's frag12 on the JSON form (the driver double-checks: it answers "outside" otherwise)
+func lfInFrag12(e map[string]any) bool {
+	sub := func(k string) bool {
+		m, ok := e[k].(map[string]any)
+		return ok && lfInFrag12(m)
+	}
+	switch e["k"] {
+	case "sel":
+		return true
+	case "aggBy", "aggWithout", "topk", "func", "withScalar":
+		return sub("e")
+	case "binOn", "binIgn", "setAnd":
+		return sub("l")
+	}
+	return false
+}
+
 // ---- C12 ----
 
 func c12Eval(r *hx.Run, cs lfCase) {
@@ -543,12 +560,24 @@ func c12Eval(r *hx.Run, cs lfCase) {
 		}
 		r.Op("lfanalyse\t"+string(b), strings.Join(impl, ";"))
 	}
-	if len(dead) == 0 {
-		return
-	}
 	base, bv, err := promeval.Instant(lfBuild(cs.Series, ""), cs.Expr, lfT0)
 	if err != nil {
 		r.Count("eval-error:" + strings.SplitN(err.Error(), ":", 2)[0])
+		return
+	}
+	// the full-label semantics of the Lean model against the engine (only judged inside the fragment: the driver
+	// answers "outside" otherwise, and so does the harness when it cannot tell)
+	if ej, ok := lfConvert(node, map[string]bool{}); ok && len(base) > 0 && lfInFrag12(ej) {
+		b, _ := json.Marshal(ej)
+		var sets []string
+		for _, ls := range base {
+			var names []string
+			ls.Range(func(l labels.Label) { names = append(names, l.Name) })
+			sets = append(sets, strings.Join(names, ","))
+		}
+		r.Op(fmt.Sprintf("lffull\t%s\t%s\t%s", strings.Join(lfLabels, ","), string(b), strings.Join(sets, ";")), "ok")
+	}
+	if len(dead) == 0 {
 		return
 	}
 	for _, d := range dead {
